@@ -51,7 +51,7 @@ func init() {
 
 func c04a(c *Ctx) {
 	for _, f := range sequencers(c.P) {
-		c.requireGate(f.Name, f, f.Calls(specApply), OutNil, checkpointUploads(f), "checkpoint upload after all tiles were applied")
+		c.requireGate(f.Name, f, f.CallsW(specApply), OutNil, checkpointUploads(f), "checkpoint upload after all tiles were applied")
 	}
 }
 
@@ -460,7 +460,10 @@ func c04d(c *Ctx) {
 		if f.Body == nil {
 			continue
 		}
-		for _, s := range f.Calls(specUpload) {
+		if c.P.isWrapperOf(f, specUpload) {
+			continue // classified at its call sites
+		}
+		for _, s := range f.CallsW(specUpload) {
 			c.touch(f)
 			shape := keyShape(f, argByName(f.Info(), s.Call, "key"))
 			inst := fmt.Sprintf("%s upload %s", f.Name, shape)
@@ -542,7 +545,7 @@ func c04e(c *Ctx) {
 		if f.Body == nil {
 			continue
 		}
-		for _, s := range f.Calls(specDiscard) {
+		for _, s := range f.CallsW(specDiscard) {
 			n++
 			c.touch(f)
 			inst := "Discard in " + f.Name
